@@ -226,4 +226,69 @@ theorem nested_sizes_sum (dim : Nat) : ∀ (vals : List (TD α)) (os : List (Sha
 
 
 
+theorem eraseDims_append {β : Type} (B ext : List β) (ds : List Nat) (h : ∀ d ∈ ds, d < B.length) :
+    eraseDims (B ++ ext) ds = eraseDims B ds ++ ext := by
+  unfold eraseDims
+  rw [List.zipIdx_append, List.filter_append, List.map_append]
+  congr 1
+  have : (ext.zipIdx B.length).filter (fun p => !ds.contains p.2) = ext.zipIdx B.length := by
+    apply List.filter_eq_self.2
+    intro p hp
+    have hge : B.length ≤ p.2 := by
+      have := List.mem_zipIdx hp
+      omega
+    simp only [Bool.not_eq_true', List.contains_eq_mem, decide_eq_false_iff_not]
+    intro hin
+    have := h p.2 hin
+    omega
+  rw [Nat.zero_add, this]
+  simp
+
+
+theorem inferSize_ofNats_some (sz : Shape) (m : Nat) (s : Shape) (h : inferSize (natsToInts sz) m = some s) : s = sz := by
+  unfold inferSize natsToInts at h
+  have h1 : (sz.map Int.ofNat).any (· < -1) = false := by
+    simp [List.any_eq_false]
+  have h2 : (sz.map Int.ofNat).filter (· ≠ -1) = sz.map Int.ofNat := by
+    apply List.filter_eq_self.2; intro x hx; simp at hx ⊢; obtain ⟨y, _, rfl⟩ := hx; omega
+  have h3 : (sz.map Int.ofNat).count (-1) = 0 := by
+    apply List.count_eq_zero.2; intro hx; simp at hx
+  have h4 : (sz.map Int.ofNat).map Int.toNat = sz := by simp [List.map_map, Function.comp_def]
+  simp only [h1, h2, h3, h4] at h
+  by_cases hp : prod sz = m
+  · simp [hp] at h; exact h.symm
+  · simp [hp] at h
+
+theorem eraseDims_length_le {β : Type} (l : List β) (ds : List Nat) : (eraseDims l ds).length ≤ l.length := by
+  unfold eraseDims
+  rw [List.length_map]
+  exact Nat.le_trans (List.length_filter_le _ _) (by simp)
+
+theorem zipIdx_filter_fst {β : Type} (p : β → Bool) : ∀ (l : List β) (k : Nat),
+    ((l.zipIdx k).filter (fun q => p q.1)).map (·.1) = l.filter p
+  | [], _ => rfl
+  | x :: l, k => by
+    simp only [List.zipIdx_cons, List.filter_cons]
+    by_cases hx : p x = true
+    · simp [hx, zipIdx_filter_fst p l (k + 1)]
+    · simp [hx, zipIdx_filter_fst p l (k + 1)]
+
+/-- erasing the positions of the size-1 dims is filtering them out -/
+theorem eraseDims_ones (bs : Shape) :
+    eraseDims bs ((List.range bs.length).filter fun i => bs.getD i 0 = 1) = bs.filter (· ≠ 1) := by
+  unfold eraseDims
+  rw [← zipIdx_filter_fst (fun x => decide (x ≠ 1)) bs 0]
+  congr 1
+  apply List.filter_congr
+  intro q hq
+  obtain ⟨x, i⟩ := q
+  have hm := List.mem_zipIdx hq
+  simp only [Nat.zero_add, Nat.sub_zero] at hm
+  obtain ⟨_, hi, hx⟩ := hm
+  have hg : bs.getD i 0 = x := by
+    simp [List.getD_eq_getElem?_getD, List.getElem?_eq_getElem hi, hx]
+  simp only [List.contains_eq_mem, List.mem_filter, List.mem_range, decide_eq_true_eq, hg, hi, true_and]
+  by_cases h1 : x = 1 <;> simp [h1]
+
+
 end TdVerif.C02
